@@ -214,8 +214,17 @@ def match_known(known, prop, config, v, plan=None, need_plan=None):
             continue
         if not fnmatch.fnmatchcase(config, m.get('config', '*')):
             continue
+        if 'config_re' in m and not re.fullmatch(m['config_re'], config):
+            continue
         if 'detail' in m and not fnmatch.fnmatchcase(v.get('detail', ''), m['detail']):
             continue
+        if 'plan_opts_any' in m:
+            if plan is None:
+                if need_plan is not None:
+                    need_plan.append(k)
+                continue
+            if not any(o in (plan.get('opts') or []) for o in m['plan_opts_any']):
+                continue
         if 'plan_has' in m:
             if plan is None:
                 if need_plan is not None:
